@@ -535,7 +535,7 @@ pub open spec fn sharded_frame(old: World, fin: World, root: PathV, n: usize, na
                  'bytes_kept(*old(w), *final(w))'),
                 ('C13 C11:success-means-a-publication-happened' + ('' if opname == 'set' else '-unless-the-key-was-already-bound'),
                  'r.is_ok() ==> final(w).published > old(w).published' + ('' if opname == 'set' else ' || old(w).files.contains_key(%s) || old(w).files.contains_key(%s)' % (P1, P2))),
-                ('C11:a-sharded-cache-never-ends-up-with-two-copies-of-one-key',
+                ('C11 C09:a-sharded-cache-never-ends-up-with-two-copies-of-one-key',
                  'final(w).hard_faults == old(w).hard_faults && !(old(w).files.contains_key(%s) && old(w).files.contains_key(%s)) && !old(w).dirs.contains(%s) && !old(w).dirs.contains(%s) '
                  '==> !(final(w).files.contains_key(%s) && final(w).files.contains_key(%s))' % (P1, P2, P1, P2, P1, P2)),
                 ('C11 C18:success-consumes-the-source', 'r.is_ok() ==> old(w).files.contains_key(pv(value)) && !final(w).files.contains_key(pv(value))'),
